@@ -49,14 +49,20 @@ struct Tuple {
   s: Scalar,
 }
 
-/// verify a tuple given as raw components; Err(reason) if a component does not even decode
-fn verify_raw(t: &Tuple) -> Result<bool, String> {
-  let pk = ServerPublicKey::load_from_bincode(&t.pk).map_err(|e| format!("pk rejected at decode: {e}"))?;
+/// verify a tuple given as raw components; Ok(None) if a component does not even
+/// decode, Err if verification panicked (neither accepted nor rejected)
+fn verify_raw(t: &Tuple) -> Result<Option<bool>, String> {
+  let pk = match ServerPublicKey::load_from_bincode(&t.pk) {
+    Ok(pk) => pk,
+    Err(_) => return Ok(None),
+  };
   let ev = Evaluation {
     output: point_from(&t.output),
     proof: Some(proof_from_scalars(&t.c, &t.s)),
   };
-  no_panic(|| Client::verify(&pk, &point_from(&t.input), &ev, t.md)).map_err(|p| format!("Client::verify panicked: {p}"))
+  no_panic(|| Client::verify(&pk, &point_from(&t.input), &ev, t.md))
+    .map(Some)
+    .map_err(|p| format!("Client::verify neither accepted nor rejected, it panicked: {p}"))
 }
 
 fn oracle(c: &Case, st: &mut Stats) -> Result<(), String> {
@@ -124,24 +130,24 @@ fn oracle(c: &Case, st: &mut Stats) -> Result<(), String> {
     c: cc,
     s: ss,
   };
-  if !verify_raw(&base)? {
+  if verify_raw(&base)? != Some(true) {
     return Err("harness: the honest tuple rebuilt from raw components does not verify".into());
   }
   let other_ev = &honest[honest.len() - 1];
   let (oc, os) = proof_scalars(other_ev.1.proof.as_ref().unwrap())?;
   let mut tamper = |name: &str, t: Tuple, st: &mut Stats| -> Result<(), String> {
     st.evals(1);
-    match verify_raw(&t) {
-      Err(_) => {
+    match verify_raw(&t).map_err(|e| format!("{e} ({name})"))? {
+      None => {
         st.class("tamper=rejected-at-decode");
         Ok(())
       }
-      Ok(false) => {
+      Some(false) => {
         st.class("tamper=rejected-by-proof");
         st.nontrivial(&(name, t.pk.clone(), t.md, t.input, t.output, t.c.to_bytes(), t.s.to_bytes()));
         Ok(())
       }
-      Ok(true) => Err(format!(
+      Some(true) => Err(format!(
         "tampered evaluation ACCEPTED ({name}): pk {} tag {} input {} output {} c {} s {}",
         hex::encode(&t.pk),
         t.md,
